@@ -2,6 +2,7 @@ import Driver.Common
 import LachesisVerif.Spec.Lachesis
 import LachesisVerif.Model.Orderer
 import LachesisVerif.Model.Vec
+import LachesisVerif.Model.RootsStore
 open Drv
 
 namespace Drv.Cons
@@ -14,6 +15,7 @@ structure St where
   insts : List (Nat × Inst) := []
   omodels : List (Nat × Model.Orderer.OState) := []   -- implementation-level model, run in lock-step
   vmodels : List (Nat × Model.Vec.VState) := []       -- implementation-level vector index, in lock-step
+  rmodels : List (Nat × Model.RootsStore.RStore) := [] -- roots table + cache model (C33), in lock-step
 
 def parsePairs (ws : List String) : List (Nat × Nat) :=
   ws.filterMap (fun p => match p.splitOn ":" with
@@ -39,6 +41,13 @@ def envOf (st : St) (g : Inst) : Model.Orderer.Env :=
       | _, _ => false,
     idKey := fun n => (match st.events.lookup n with | some e => e.lamport | none => 0) * 18446744073709551616 + n,
     sealAt := fun e f => (st.seals.lookup (e, f)).map mkVals }
+
+/-- eviction policy used when running the roots-store model: keep only the newest cache entry -/
+def evictAllButNewest : Model.RootsStore.Evict := fun c => c.take 1
+
+def getR (st : St) (k : Nat) : Model.RootsStore.RStore := (st.rmodels.lookup k).getD {}
+def setR (st : St) (k : Nat) (r : Model.RootsStore.RStore) : St :=
+  { st with rmodels := (k, r) :: st.rmodels.filter (fun x => x.1 != k) }
 
 def getV (st : St) (k : Nat) : Model.Vec.VState :=
   (st.vmodels.lookup k).getD (Model.Vec.VState.init (mkVals st.genesis).len)
@@ -101,8 +110,8 @@ def step (st : St) (ws : List String) : St × String :=
     | .error x => (st, stateStr i ++ " - MODEL-ERROR " ++ x.name)
   | "reset" :: k :: e :: ps =>
     let i := Inst.fresh (nat! e) (parsePairs ps)
-    (setV (setO (setInst st (nat! k) i) (nat! k) (Model.Orderer.initial (nat! e) (mkVals (parsePairs ps)))) (nat! k)
-       (Model.Vec.VState.init i.nv), stateStr i)
+    (setR (setV (setO (setInst st (nat! k) i) (nat! k) (Model.Orderer.initial (nat! e) (mkVals (parsePairs ps)))) (nat! k)
+       (Model.Vec.VState.init i.nv)) (nat! k) {}, stateStr i)
   | "ev" :: n :: rest =>
     let e := mkEv (nat! n) (nat! ((kv rest "e").getD "0")) rest (nat! ((kv rest "f").getD "0"))
     if !knownParents st e then (st, "err unknown-parent") else
@@ -147,7 +156,13 @@ def step (st : St) (ws : List String) : St × String :=
         let v0 := getV st (nat! k)
         let v' := if i'.epoch != i.epoch then Model.Vec.VState.init i'.nv
                   else if v0.size == i.size && i.size < 400 then v0.add (vecEvent i e) else v0
-        (setV (setO (setInst st (nat! k) i') (nat! k) o') (nat! k) v', s!"ok {stateStr i'} {fmtBlocks bs}{note}")
+        -- roots store model: register the event for its root frames, or start a new epoch
+        let r' := if i'.epoch != i.epoch then Model.RootsStore.newEpoch (getR st (nat! k))
+                  else match i.insert e with
+                    | some g => (Model.Election.rootFrames (g.selfParentFrame e) e.frame).foldl
+                        (fun r f => Model.RootsStore.addRoot evictAllButNewest r ⟨e.n, f, e.creator⟩) (getR st (nat! k))
+                    | none => getR st (nat! k)
+        (setR (setV (setO (setInst st (nat! k) i') (nat! k) o') (nat! k) v') (nat! k) r', s!"ok {stateStr i'} {fmtBlocks bs}{note}")
   | ["fc", k, a, b] =>
     let i := getInst st (nat! k)
     match posIn i (nat! a), posIn i (nat! b) with
@@ -168,7 +183,10 @@ def step (st : St) (ws : List String) : St × String :=
   | ["roots", k, f] =>
     let i := getInst st (nat! k)
     let l := (i.rootsAt (nat! f)).map (fun r => s!"{(i.ev r).creator}:{(i.ev r).n}")
-    (st, if l.isEmpty then "-" else " ".intercalate (sortStr l))
+    let (r', rr) := Model.RootsStore.getFrameRoots evictAllButNewest (getR st (nat! k)) (nat! f)
+    let ml := rr.map (fun x => s!"{x.validator}:{x.id}")
+    let note := if sortStr ml == sortStr l then "" else " ROOTS-MODEL-DIFFERS"
+    (setR st (nat! k) r', (if l.isEmpty then "-" else " ".intercalate (sortStr l)) ++ note)
   | ["state", k] =>
     let i := getInst st (nat! k)
     (st, s!"{stateStr i} vals={",".intercalate (i.vals.map (fun p => s!"{p.1}:{p.2}"))}")
